@@ -102,19 +102,19 @@ mod __verif_kani {
         kani::cover!(len == 0);
     }
 
-    /// C17 (BOUNDED: k <= 3 results, buffer length 3): after the same pushes the buffer list and the allocating list
+    /// C17 (BOUNDED: k <= 2 results, buffer length 2): after the same pushes the buffer list and the allocating list
     /// give the same unique / earliest / latest answers, and the buffer holds the same entries in the same order
     #[kani::proof]
-    #[kani::unwind(6)]
+    #[kani::unwind(4)]
     fn refmut_vs_alloc_accessors() {
         let k: usize = kani::any();
-        kani::assume(k <= 3);
-        let items = [any_kind(), any_kind(), any_kind()];
-        let mut buf: [Option<FoundDateTimeKind>; 3] = [None; 3];
+        kani::assume(k <= 2);
+        let items = [any_kind(), any_kind()];
+        let mut buf: [Option<FoundDateTimeKind>; 2] = [None; 2];
         let mut a = FoundDateTimeList::default();
         let mut b = FoundDateTimeListRefMut::new(&mut buf);
         let mut i = 0;
-        while i < 3 {
+        while i < 2 {
             if i < k {
                 a.push(items[i]);
                 b.push(items[i]);
@@ -128,13 +128,13 @@ mod __verif_kani {
         let v = a.into_inner();
         assert!(v.len() == k);
         let mut j = 0;
-        while j < 3 {
+        while j < 2 {
             if j < k {
                 assert!(same_slot(&b.data()[j], &Some(v[j])));
             }
             j += 1;
         }
         kani::cover!(k == 0);
-        kani::cover!(k == 3);
+        kani::cover!(k == 2);
     }
 }
